@@ -390,22 +390,8 @@ func batch(c vcase, r *vres) {
 	if n == 0 {
 		return
 	}
-	data, input, afterEnc := batchInputs(c)
+	_, input, afterEnc := batchInputs(c)
 	switch c.Items[0].Op {
-	case "encname": // DNSPacketConn.encodeName: k names from one DNSPacketConn, all kept, then looked at
-		pc := &DNSPacketConn{domain: domainOf(c.Domain)}
-		r.Items = runBatch(c, afterEnc,
-			func(i int) ([]byte, error) { return data[i], nil },
-			func(i int, b []byte) (interface{}, error) { return pc.encodeName(b) },
-			func(i int, v interface{}, r *vres) {
-				r.Labels = []string{}
-				for _, l := range v.(dns.Name) {
-					r.Labels = append(r.Labels, hex.EncodeToString(l))
-				}
-			})
-		for i := range r.Items { // decoder-only shape: the outcome of the one call
-			r.Items[i].Ok, r.Items[i].Err = r.Items[i].Ok2, r.Items[i].Err2
-		}
 	case "send": // the real path WriteTo -> queue -> sendLoop -> send on ONE DNSPacketConn; the caller may reuse its buffer
 		cc := newNotifyConn(nil)
 		pc := NewDNSPacketConn(cc, queuepacketconn.DummyAddr{}, domainOf(c.Domain))
